@@ -29,7 +29,7 @@ def cli_history(rnd, label):
 
 def run(ctx):
     rnd = random.Random(ctx.seed + 1616)
-    n = 150 if ctx.quick else 3000
+    n = 150 if ctx.quick else 700
     scens = [cli_history(rnd, "u%d" % i) for i in range(n)]
     gl.run_grid(ctx, [("cli", scens)], 0, "C16", driver="cli_replay.cpp", chunk=15, timeout=600, own_all=True)
     ctx.assume("every scripted action runs through the API on an object and through the tasgrid executable on a grid file (binary and ASCII grid files alternate per scenario); the state read back from the tool's grid file is what TLC validates against GridTrace.tla; the tool's grid file must equal byte for byte the API object written in the same format; the query commands (-gp -gn -gq -gi -e -i -gc, candidate lists of -gcp) are compared number by number (ASCII matrix files, 17 digits) with the API results at 1e-14")
